@@ -29,6 +29,17 @@ Observation: ReposCollection.make_reports_data(text) -> RGraph.branches[*].get_r
 rbuild.rcommit.commit (the build commit), rbuild.build_num (fake 'not built' / 'not merged' numbers),
 rbuild.get_printable_rcommits() (the commits the report prints under the build).  A sample of cases is
 also printed through GHistReport and the text compared with the data (supporting clause).
+
+Input space beyond DAG x heads x tags x matching set:
+  * the search text is taken as it is (families small-3c-2b-blank-text, verbatim-text): texts with leading /
+    trailing whitespace whose stripped form is a prefix of other ids, texts with pattern characters, in
+    another case, with inner blanks; the oracle is  text in message  and nothing else;
+  * histories older than the 30-day window (family old-history): commit times spread over 31-45 days with
+    every head within 29 days of the newest commit, so that no branch is obsolete whichever commit the
+    cut-off is measured from.  Histories on which the package's documented rule ('older than latest
+    report-related commit') and its code (earliest report-related build) disagree about a branch being
+    obsolete are outside the property's quantifier and are not generated (every case is checked for this:
+    facts['in_domain']).
 """
 import contextlib
 import io
@@ -42,6 +53,8 @@ import sys
 from harness import ghist_mock as gm
 
 CALL_BUDGET_S = 10
+WINDOW = 30 * 86400         # the cut-off period the property's quantifier speaks of
+SAFE_WINDOW = 29 * 86400    # the generators keep every branch head this close to the newest commit
 
 CLAUSES = ('listed_once', 'earliest', 'exactly_once_if_build_exists', 'never_not_merged_if_reachable',
            'not_merged_exact', 'only_matching', 'branch_order')
@@ -203,7 +216,61 @@ def check(hist, text, obs):
         'tagged_merge_of_built': _tagged_merge_of_built(sp),
         'roots': sum(1 for c in set().union(*sp.R.values()) if not sp.parents[c]) if sp.R else 0,
     }
+    facts.update(_text_and_time_facts(sp, text, M))
     return fails, diags, facts
+
+
+def _reads_as(text, msg):
+    """the (wrong) normalisations of the search text under which msg would be selected although it
+    does not contain the text: 'stripped' (surrounding whitespace removed), 'blanks' (runs of
+    whitespace collapsed on both sides), 'case' (case-insensitive), 'pattern' (text read as a regular
+    expression or a shell pattern).  Used only to say which cases exercise 'the search text is taken
+    as it is'; the verdict on a commit is always  text in message."""
+    import fnmatch
+    import re
+    if text in msg:
+        return set()
+    got = set()
+    st = text.strip()
+    if st != text and st and st in msg:
+        got.add('stripped')
+    if re.sub(r'\s+', ' ', text) in re.sub(r'\s+', ' ', msg):
+        got.add('blanks')
+    if text.lower() in msg.lower():
+        got.add('case')
+    try:
+        if text and re.search(text, msg):
+            got.add('pattern')
+    except re.error:
+        pass
+    if any(ch in text for ch in '*?[') and fnmatch.fnmatchcase(msg, '*' + text + '*'):
+        got.add('pattern')
+    return got
+
+
+def _text_and_time_facts(sp, text, M):
+    reach_all = set().union(*sp.R.values()) if sp.R else set()
+    near = set()
+    for c in reach_all - M:
+        near |= _reads_as(text, sp.commits[c].get('msg', ''))
+    t = {c: sp.commits[c].get('t', 0) for c in sp.commits}
+    tmax = max(t.values()) if t else 0
+    tmin = min(t.values()) if t else 0
+    old = False        # a report-related commit of a lower-sorted branch > 30 days older than a head
+    for b in sp.order:
+        th = t[sp.head[b]]
+        for c in sp.P[b]:
+            if (c in M or gm.is_build_commit(sp.commits[c])) and th - t[c] > WINDOW:
+                old = True
+    return {
+        'near_stripped': 'stripped' in near,
+        'near_other': bool(near & {'case', 'pattern', 'blanks'}),
+        'old_history': old,
+        # the quantifier's restriction, independent of which report-related commit the cut-off is
+        # measured from: no head is more than 29 days older than ANY commit of the repository
+        'in_domain': all(tmax - t[h] <= SAFE_WINDOW for h in sp.head.values()),
+        'span_days': (tmax - tmin) / 86400.0,
+    }
 
 
 def _tagged_merge_of_built(sp):
@@ -440,11 +507,140 @@ def enum_small_blocks(n, branch_names, all_reachable=False):
             yield (lambda dag=dag, heads=heads: block(dag, heads))
 
 
+# ---- the search text is taken as it is ---------------------------------------------------------
+# 'contains the search text' is plain sub-string containment of the text exactly as given: no
+# stripping of surrounding blanks, no collapsing of blanks, no case folding, no pattern syntax.
+
+WS_LEAD = ['', '', ' ', '  ', '\t', '\n']
+WS_TRAIL = [' ', ' ', '  ', '\t', '\n', '']
+CORES = ['BUG-1', 'AB-7', '#3', 'fix 1']
+# (search text, messages that contain it, messages that contain it only when the text is normalised)
+LITERAL_TEXTS = [
+    ('BUG.1', ['BUG.1 fix', 'see BUG.1'], ['BUG-1 fix', 'BUG 1', 'BUGX1 y']),
+    ('BUG-1*', ['BUG-1* all of them', 'x BUG-1*'], ['BUG-1', 'BUG-12 fix', 'BUG-']),
+    ('BUG-?', ['which BUG-?'], ['BUG-1', 'BUG-7 x']),
+    ('[BUG-1]', ['[BUG-1] fix', 'fix [BUG-1]'], ['BUG-1 fix', 'B', '1']),
+    ('BUG-1$', ['costs BUG-1$ a day'], ['BUG-1', 'fix BUG-1']),
+    ('^BUG-1', ['not ^BUG-1'], ['BUG-1 fix', 'x\nBUG-1']),
+    ('BUG-1|BUG-2', ['BUG-1|BUG-2 both'], ['BUG-1 fix', 'BUG-2 other']),
+    ('BUG-\\d', ['BUG-\\d is a pattern'], ['BUG-1', 'BUG-7 x']),
+    ('(BUG-1)', ['done (BUG-1)'], ['BUG-1 fix']),
+    ('bug-1', ['bug-1 lower case', 'see bug-1'], ['BUG-1 fix', 'Bug-1']),
+    ('BUG-1', ['BUG-1 fix', 'refs BUG-1'], ['bug-1 lower case', 'Bug-1 x']),
+    ('Bug-1', ['Bug-1'], ['BUG-1 fix', 'bug-1 lower case']),
+    ('BUG-1 fix', ['BUG-1 fix', 'the BUG-1 fix again'], ['BUG-1  fix', 'BUG-1\tfix', 'BUG-1\nfix', 'BUG-1fix']),
+]
+VERBATIM_OFFSET = 10_000_000
+OLD_OFFSET = 20_000_000
+
+
+def gen_verbatim(seed, index):
+    """one seeded (history, text): the DAG / tags / heads of gen_random, the messages rewritten around a
+    search text that is (3 of 4) an id with leading and/or trailing whitespace or (1 of 4) an id with
+    pattern characters / in another case / with an inner blank.  1-3 commits contain the text, 1-3
+    others contain only a normalised form of it (the id followed by another digit - so that the
+    stripped text is a prefix of another id -, the id at the end of the message, the id followed by a
+    different whitespace character, ...)"""
+    hist = gen_random(seed, VERBATIM_OFFSET + index)
+    rnd = random.Random(f"{seed}/verbatim/{index}")
+    if index % 4 != 3:
+        core = rnd.choice(CORES)
+        while True:
+            lead, trail = rnd.choice(WS_LEAD), rnd.choice(WS_TRAIL)
+            if lead or trail:
+                break
+        text = lead + core + trail
+        match = [text, text + 'fix', 'see' + text + 'now', 'cleanup\n\nrefs' + text + 'end', 'x ' + text + ' y',
+                 text + text]
+        other_ws = [w for w in (' ', '\t', '\n', '  ') if not (trail and w.startswith(trail[0]))]
+        near = [core, core + '2', core + '2 fix', 'part of ' + core + '7', 'fix ' + core, core + ': fix',
+                'cleanup\n\nrefs ' + core, '(' + core + ')', core + rnd.choice(other_ws or ['.']) + 'fix',
+                'x' + core + (trail or ' ') + 'y', (lead or ' ') + core + 'y']
+    else:
+        text, match, near = rnd.choice(LITERAL_TEXTS)
+    n = len(hist['commits'])
+    ids = list(range(1, n + 1))
+    rnd.shuffle(ids)
+    n_match = rnd.randint(1, 3)
+    n_near = rnd.randint(1, 3)
+    for d in hist['commits']:
+        k = ids.index(d['id'])
+        if k < n_match:
+            d['msg'] = rnd.choice(match)
+        elif k < n_match + n_near:
+            d['msg'] = rnd.choice(near)
+        else:
+            d['msg'] = rnd.choice(MESSAGES_OTHER)
+    return hist, text
+
+
+def enum_small_blank_blocks(n, branch_names):
+    """exhaustive family for a search text with a trailing blank: every DAG over n commits x every head
+    placement x every set of tagged commits x every assignment of one of three messages to each commit
+    ('x'; 'BUG-1 fix', which contains the text 'BUG-1 '; 'BUG-12', which contains only the stripped
+    text), at least one commit not 'x'"""
+    ids = list(range(1, n + 1))
+    msgs = ['x', 'BUG-1 fix', 'BUG-12']
+
+    def block(dag, heads):
+        for tagmask in range(1 << n):
+            for assign in itertools.product(range(3), repeat=n):
+                if not any(assign):
+                    continue
+                commits = []
+                for i in ids:
+                    d = {'id': i, 'parents': list(dag[i - 1]), 't': 1000 * i, 'msg': msgs[assign[i - 1]]}
+                    if tagmask >> (i - 1) & 1:
+                        d['tags'] = [gm.release_tag(i, 1, 0)]
+                    commits.append(d)
+                yield {'name': 'r', 'commits': commits,
+                       'branches': [[b, h] for b, h in zip(branch_names, heads)]}, 'BUG-1 '
+    for dag in small_dags(n):
+        for heads in itertools.product(ids, repeat=len(branch_names)):
+            yield (lambda dag=dag, heads=heads: block(dag, heads))
+
+
+# ---- histories older than the window -------------------------------------------------------------
+
+def gen_old_history(seed, index):
+    """one seeded (history, text): the DAG / tags / messages of gen_random with commit times spread over
+    31-45 days (increasing with the commit number, 15 % shuffled), and every branch head among the
+    commits of the last 29 days: whichever report-related commit the 30-day cut-off is measured
+    from, no branch is obsolete"""
+    hist = gen_random(seed, OLD_OFFSET + index)
+    rnd = random.Random(f"{seed}/old/{index}")
+    n = len(hist['commits'])
+    span = rnd.choice([31, 33, 36, 40, 45]) * DAY
+    times = sorted(rnd.randrange(span) for _ in range(n))
+    times[0] = rnd.randrange(DAY // 2)
+    times[-1] = span - 1 - rnd.randrange(DAY // 2)
+    times.sort()
+    if rnd.random() < .15:
+        rnd.shuffle(times)
+    for d in hist['commits']:
+        d['t'] = times[d['id'] - 1]
+    tmax = max(times)
+    recent = [d['id'] for d in hist['commits'] if tmax - d['t'] <= SAFE_WINDOW]
+    for br in hist['branches']:
+        t_head = hist['commits'][br[1] - 1]['t']
+        if tmax - t_head > SAFE_WINDOW:
+            br[1] = rnd.choice(recent)
+    return hist, TEXTS[index % len(TEXTS)]
+
+
 RANDOM_BLOCK = 64
 
 
 def n_random(tier):
     return 4096 if tier == 'quick' else 40960
+
+
+def n_verbatim(tier):
+    return 2048 if tier == 'quick' else 20480
+
+
+def n_old(tier):
+    return 1024 if tier == 'quick' else 10240
 
 
 def random_case(seed, i):
@@ -474,6 +670,19 @@ def families(tier, seed):
         for s in range(0, n_random(tier), RANDOM_BLOCK):
             yield (lambda s=s: (random_case(seed, i) for i in range(s, s + RANDOM_BLOCK)))
     fams.append(('random', rnd_blocks))
+
+    fams.append(('small-3c-2b-blank-text', lambda: enum_small_blank_blocks(3, ['release/1.0', 'master'])))
+    if tier == 'thorough':
+        fams.append(('small-3c-3b-blank-text',
+                     lambda: enum_small_blank_blocks(3, ['release/1.0', 'release/1.1', 'master'])))
+
+    def seeded_blocks(gen, count):
+        def blocks():
+            for s in range(0, count, RANDOM_BLOCK):
+                yield (lambda s=s: (gen(seed, i) for i in range(s, s + RANDOM_BLOCK)))
+        return blocks
+    fams.append(('verbatim-text', seeded_blocks(gen_verbatim, n_verbatim(tier))))
+    fams.append(('old-history', seeded_blocks(gen_old_history, n_old(tier))))
     return fams
 
 
@@ -482,7 +691,10 @@ def families(tier, seed):
 # ------------------------------------------------------------------------------------------------
 
 REACH = ['head inside another branch', 'heads coincide', 'tagged merge of two built sub-branches',
-         "non-empty 'not merged'", 'several roots']
+         "non-empty 'not merged'", 'several roots',
+         'search text with leading/trailing whitespace, a reachable commit contains only the stripped text',
+         'a reachable commit contains the search text only case-insensitively / as a pattern / with blanks collapsed',
+         'report-related commit more than 30 days older than the head of a higher-sorted branch']
 
 
 def feats_of(hist, facts):
@@ -498,6 +710,14 @@ def feats_of(hist, facts):
         f.append("non-empty 'not merged'")
     if facts['roots'] >= 2:
         f.append('several roots')
+    if facts['near_stripped']:
+        f.append(REACH[5])
+    if facts['near_other']:
+        f.append(REACH[6])
+    if facts['old_history']:
+        f.append(REACH[7])
+    if not facts['in_domain']:
+        f.append('OUTSIDE-DOMAIN')
     return f
 
 
@@ -549,6 +769,10 @@ def run(b):
                 _, _, _, nontriv, feats, fails, diags = r
                 case = {'history': hist, 'text': text}
                 b.case(case, nontrivial=nontriv, sample=(fam == 'random'))
+                if 'OUTSIDE-DOMAIN' in feats:
+                    b.error(f"case {fam}#{bi}.{ci}: a branch head is more than 29 days older than the newest "
+                            f"commit - outside the quantifier of the property")
+                    continue
                 for f in feats:
                     b.hit(f)
                 for clause, ksuf, txt in fails:
